@@ -95,6 +95,11 @@ def specs_for(tier, seed):
             ea["signature_algorithm"] = alg
         add(accounts=[acct(external_account=ea)], endpoints={"A": {"ca": {"eab_keys": {ea["identifier"]: key}, "require_eab": True}}},
             meta={"family": "external account binding", "alg": alg})
+    # 7. a CA whose URLs are valid but not in the form a URL library would normalise them to (mixed-case host name): the strings the
+    #    CA handed out - account URL as kid, request URL as url - have to come back byte for byte
+    add(endpoints={"A": {"ca": {"host": "LocalHost"}}}, attempts=2, meta={"family": "CA URLs with a mixed-case host name"})
+    add(endpoints={"A": {"ca": {"host": "LocalHost"}}}, accounts=[acct(key_type="ecdsa_p256")], meta={"family": "CA URLs with a mixed-case host name, roll-over"},
+        steps=[("run", {}), ("call", set_account(key_type="ecdsa_p384")), ("run", {})])
     # 6. two endpoints: each server's nonces stay with that server
     add(endpoints={"A": {}, "B": {}}, certs=[simple_cert("c1"), simple_cert("c2", endpoint="B")], attempts=2,
         meta={"family": "two endpoints, one account"})
@@ -195,7 +200,7 @@ def run(ctx):
            "model_fidelity": {"all_labels_clean": not fb and not fu, "bad": [(results[i]["meta"], l) for i, l, _ in fb[:5]]},
            "exhaustive": False,
            "rule": "all 7 account key types; every request position x {lost, nonce-less, badNonce, non-problem} answers followed by a second "
-                   "attempt, against CAs with and without nonces on GET; badNonce storms; roll-overs between key types, also on an endpoint two key generations behind; contact updates; "
+                   "attempt, against CAs with and without nonces on GET; badNonce storms; roll-overs between key types, also on an endpoint two key generations behind; contact updates; a CA whose URLs have a mixed-case host name (kid and url must be the strings it issued); "
                    "forgotten accounts; EAB with each MAC; two endpoints; plus JWS volume through encode_kid/encode_jwk"}
     return {"coverage": cov, "assumptions": [
         "OpenSSL (through the vcrypto helper) is the signature/JWK oracle; EdDSA keys may name their algorithm 'EdDSA' (RFC 8037) or 'Ed25519'/'Ed448' (RFC 9864)",
